@@ -211,7 +211,7 @@ func execConcurrent(t Target, w *World) *Result {
 	res := results[0]
 	res.Stray = nil
 	for _, p := range listAll(cwd) {
-		if strings.HasSuffix(p, "/") || beforeSet[p] || outs[filepath.Clean(p)] || p == "link_target.go" || p == "out/real_behind_link.go" || strings.HasPrefix(p, "linkstore/") {
+		if strings.HasSuffix(p, "/") || beforeSet[p] || outs[filepath.Clean(p)] || p == "link_target.go" || p == "out/real_behind_link.go" || strings.HasPrefix(p, "linkstore/") || strings.HasPrefix(p, "realdir/") {
 			continue
 		}
 		res.Stray = append(res.Stray, p)
